@@ -67,10 +67,11 @@ func DefaultRunCfg() RunCfg {
 
 // Chain is an L1 chain positioned at one state: a fixture plus the context (store branch + header).
 type Chain struct {
-	F   *Fixture
-	Ctx sdk.Context
-	C   *Conc
-	Cfg RunCfg
+	F          *Fixture
+	Ctx        sdk.Context
+	ClaimsKept bool // result of the last claims probe (genesis.go)
+	C          *Conc
+	Cfg        RunCfg
 }
 
 func NewChain(c *Conc, cfg RunCfg) *Chain {
@@ -462,7 +463,7 @@ func (ch *Chain) Exec(e M) Outcome {
 		if err != nil {
 			return Outcome{OK: false, Err: err.Error()}
 		}
-		return Outcome{OK: true, Resp: M{"same": same}}
+		return Outcome{OK: true, Resp: M{"same": same, "claimsKept": ch.ClaimsKept}}
 	}
 	panic("unknown event type " + ty)
 }
